@@ -9,7 +9,7 @@
     [C16_scalar_index_safe]. *)
 From Coq Require Import ZArith Bool List Lia.
 From GoSecs Require Import Base.GoInt Gen.Gen Gen.BridgeConstruct
-  Secs2.ConstructParse Secs2.Construct Secs2.ConstructProofs.
+  Secs2.ConstructParse Secs2.Construct Secs2.ConstructProofs Secs2.ConstructFloat.
 Import ListNotations.
 Open Scope Z_scope.
 
@@ -77,6 +77,23 @@ Theorem C16_float_values : forall pf w args xs, w = 4 \/ w = 8 -> fdenotes_all p
   type_code it = 30 + w /\ size_of it = Z.of_nat (length xs) /\ num_values it = xs.
 Proof. exact float_values. Qed.
 Print Assumptions C16_float_values.
+
+(** Uniform float statement: whatever the presentation (float32, float64, integer with |v| <= 2^53,
+    parsed string), the item stores [f4 w] (clampF4 for F4, identity for F8) of the exact binary64
+    image of each input, in order; clampF4 is the identity on widened float32 and integer images. *)
+Theorem C16_clamp_float : forall pf w args xs, w = 4 \/ w = 8 -> fin_denotes_all pf args xs ->
+  Z.of_nat (length xs) < 2 ^ 31 ->
+  let it := new_float pf w args in
+  (error it = None <-> Z.of_nat (length xs) * w <= MaxByteSize) /\
+  type_code it = 30 + w /\ size_of it = Z.of_nat (length xs) /\
+  num_values it = map (f4 w) xs.
+Proof. exact float_clamp_values. Qed.
+Print Assumptions C16_clamp_float.
+
+Theorem C16_order_and_shape_float_inputs : forall pf w a1 a2 xs,
+  fin_denotes_all pf a1 xs -> fin_denotes_all pf a2 xs -> new_float pf w a1 = new_float pf w a2.
+Proof. exact shape_float_inputs. Qed.
+Print Assumptions C16_order_and_shape_float_inputs.
 
 (** ** Order and shape: two argument lists presenting the same numbers give THE SAME item (for every
     byte size, valid or not), hence Equal items when error-free. *)
@@ -228,6 +245,21 @@ Example C16_clamp_f4_nonvacuous :
   num_values (new_float (fun _ => None) 4 [AF64 5190213388591581725; AInt TInt8 (-2)]) =
     [maxf32_mag; 13835058055282163712].
 Proof. repeat split; reflexivity. Qed.
+
+Example C16_clamp_float_nonvacuous :
+  (* float32(1.5) = 0x3FC00000, int8(-2), float64 1e39 and the string "x" parsed as 1e39, into F4 *)
+  let pf := fun s => match s with [120] => Some 5190213388591581725 | _ => None end in
+  fin_denotes_all pf [AF32 1069547520; AInt TInt8 (-2); AF64s [5190213388591581725]; AStr [120]]
+                  ([4609434218613702656] ++ [13835058055282163712] ++ [5190213388591581725] ++ [5190213388591581725] ++ []) /\
+  num_values (new_float pf 4 [AF32 1069547520; AInt TInt8 (-2); AF64s [5190213388591581725]; AStr [120]]) =
+    [4609434218613702656; 13835058055282163712; maxf32_mag; maxf32_mag].
+Proof.
+  cbv zeta. split; [|reflexivity].
+  apply (FIA_cons _ _ [4609434218613702656]); [apply (FI_f32 _ 1069547520); lia|].
+  apply (FIA_cons _ _ [13835058055282163712]); [apply (FI_int _ TInt8 (-2)); unfold two53; lia|].
+  apply (FIA_cons _ _ [5190213388591581725]); [apply FI_f64s|].
+  apply (FIA_cons _ _ [5190213388591581725]); [apply FI_str; reflexivity|constructor].
+Qed.
 
 Example C16_errors_nonvacuous :
   refused_int (AStr [120]) /\ refused_uint (AInts TInt8 [1; -1]) /\
